@@ -44,12 +44,16 @@ META = {
         "restore pairs are checked for order, copy-before-in-place-mutation and inverse operations (R2); lru_cache functions are "
         "pure functions of immutable parameters (R3); both parse methods build a new MarkdownIt+renderer per call and keep it in "
         "a local only (R4); every renderer attribute written during a render is re-initialised unconditionally by setup_render "
-        "(R5); document-scoped state is listed (R6); no uuid/random/time/id() value reaches a node, id or message (R7)."
+        "(R5); document-scoped state is listed (R6); no uuid/random/time/id() value reaches a node, id or message (R7); a config "
+        "field that is mutated in place is re-created for every MdParserConfig instance by an unconditional normalising validator, "
+        "because copy() is shallow (R8); env.myst_config is assigned on every normal path of a handler connected to builder-inited, "
+        "because the environment is pickled between builds (R9). document.settings counts as shared (one publisher settings object "
+        "per Sphinx build): attributes on it must be overwritten on every render from the document's own config."
     ),
     "not_decided": "equality of outputs under all histories/schedules as values; state kept inside third-party directives/roles, docutils and Sphinx domains (one foreign write is covered: the default role set by docutils' default-role directive), and Jinja templates handed `env`",
     "trusted_base": ["CPython ast", "engine call graph incl. frozen special edges", "tables ENV_API / ENV_PURE / REGISTRY_CALLS / FRESH_CALLS in this module"],
     "assumptions": [
-        "docutils creates one document/settings/reporter per parse; Sphinx clears env.temp_data per document and merges env.metadata / domain data per docname from parallel workers",
+        "docutils creates one document/reporter per parse (the settings object is shared under Sphinx and judged as such); Sphinx clears env.temp_data per document, replaces settings.record_dependencies per document and merges env.metadata & co. / domain data per docname from parallel workers",
         "markdown-it creates a fresh env dict per MarkdownIt.render call",
     ],
 }
@@ -63,6 +67,7 @@ PARSE_ENTRIES = [
     "mdit_to_docutils.transforms:ResolveAnchorIds.apply",
     "sphinx_ext.directives:FigureMarkdown.run",
     "sphinx_ext.directives:SubstitutionReferenceRole.run",
+    "sphinx_ext.myst_refs:MystReferenceResolver.run",  # post-transform: resolves references, emits warnings
 ]
 RENDER_ENTRIES = PARSE_ENTRIES[:2]
 BUILD_ENTRIES = [
@@ -112,12 +117,24 @@ ENV_ARG_API = {
     "sphinx.ext.intersphinx._shared.InventoryAdapter": "read adapter over env.intersphinx_* (idempotent lazy init)",
     "os.path.relpath": "pure",
     "isinstance": "pure",
+    "hasattr": "pure",
+    "getattr": "pure read",
+    "type": "pure",
+    "id": "pure",
+    "bool": "pure",
+    "repr": "pure",
+    "str": "pure",
 }
 
 # methods of str/bytes/dict/list/set/tuple that do not mutate: a call of one of these on something read out of the env is a value computation
 _VALUE_METHODS = {n for t in (str, bytes, dict, list, set, frozenset, tuple) for n in dir(t) if not n.startswith("__")} - MUTATORS
 
-SHARED = {"GLOBAL", "IMPORTED", "CLASSOBJ", "CLASSATTR", "REGISTRY", "CONFIG", "ENV"}
+# env attributes that Sphinx merges back from parallel read workers per docname (BuildEnvironment.merge_info_from)
+ENV_MERGED = {"metadata", "titles", "longtitles", "tocs", "toc_num_entries", "dependencies", "included", "reread_always", "all_docs", "glob_toctrees", "numbered_toctrees", "toctree_includes", "files_to_rebuild"}
+# what may be written below document.settings (under Sphinx ONE settings object serves every document of the build)
+SETTINGS_API = {"record_dependencies": "dependency list that docutils' own include directive fills in the same way; Sphinx installs a new one for every document it reads"}
+
+SHARED = {"SETTINGS", "GLOBAL", "IMPORTED", "CLASSOBJ", "CLASSATTR", "REGISTRY", "CONFIG", "ENV"}
 
 
 @dataclass(frozen=True)
@@ -154,6 +171,54 @@ class Site:
 
 # ---------------------------------------------------------------------------
 # E7 (local to this module): provenance of written objects
+
+
+def _alias_target(fi: FunctionInfo, name: str) -> str | None:
+    """``name`` is a local bound exactly once, to a plain name/attribute chain (``cfg = state._renderer.md_config``)."""
+    cache = fi.__dict__.setdefault("_c15_alias", {})
+    if name in cache:
+        return cache[name]
+    res = None
+    if name not in fi.params and not fi.is_lambda:
+        defs = []
+        for n in walk_local(fi.node, into_lambdas=False):
+            if isinstance(n, (ast.Assign, ast.AnnAssign, ast.AugAssign, ast.For, ast.comprehension, ast.withitem, ast.NamedExpr)):
+                tg = n.targets if isinstance(n, ast.Assign) else [getattr(n, "target", None) or getattr(n, "optional_vars", None)]
+                for t in tg:
+                    if t is not None and any(isinstance(x, ast.Name) and x.id == name for x in ast.walk(t) if isinstance(x, ast.Name) and isinstance(x.ctx, ast.Store)):
+                        defs.append(n)
+        if len(defs) == 1 and isinstance(defs[0], (ast.Assign, ast.AnnAssign)) and defs[0].value is not None:
+            v = defs[0].value
+            if isinstance(v, ast.Call) and dotted(v.func) == "cast" and len(v.args) == 2:
+                v = v.args[1]
+            d = dotted(v)
+            tgt_ok = isinstance(defs[0], ast.AnnAssign) or (len(defs[0].targets) == 1 and isinstance(defs[0].targets[0], ast.Name))
+            if d and tgt_ok and isinstance(v, ast.Attribute) and d.split(".")[0] != name:
+                res = d
+    cache[name] = res
+    return res
+
+
+def _ntext(e: ast.AST, fi: FunctionInfo, depth: int = 0) -> str:
+    """Normalised text of a place: a local alias at the root of a longer chain is replaced by what it stands for."""
+    text = unparse(e)
+    root = e
+    steps = 0
+    while isinstance(root, (ast.Attribute, ast.Subscript)):
+        root = root.value
+        steps += 1
+    if steps and isinstance(root, ast.Name) and depth < 3:
+        tgt = _alias_target(fi, root.id)
+        if tgt and text.startswith(root.id):
+            rest = text[len(root.id):]
+            head = tgt
+            # expand aliases of aliases
+            h0 = head.split(".")[0]
+            t2 = _alias_target(fi, h0) if depth < 2 else None
+            if t2:
+                head = t2 + head[len(h0):]
+            return head + rest
+    return text
 
 
 def _flatten(t: ast.expr):
@@ -430,6 +495,8 @@ class Effects:
                     return out or {Root("UNKNOWN", "property")}
             if e.attr in ENV_ATTRS:
                 return {Root("ENV", f".{e.attr}", False, True)}
+            if e.attr == "settings" and not any(r.kind in ("GLOBAL", "IMPORTED", "CLASSOBJ") for r in base):
+                return {Root("SETTINGS", "document.settings: under Sphinx one settings object (the publisher's) is shared by every document read in the process")}
             shared = {r.derived() for r in base if r.kind in SHARED}
             if shared:
                 return shared
@@ -456,7 +523,7 @@ class Effects:
             return set(base)
         if isinstance(e, ast.Subscript):
             base = rec(e.value)
-            if self.is_docname(e.slice, fi):
+            if self.is_docname(e.slice, fi) and isinstance(e.value, ast.Attribute) and e.value.attr in ENV_MERGED:
                 return {r.keyed() for r in base}
             return {r.derived() for r in base}
         if isinstance(e, ast.Call):
@@ -483,7 +550,7 @@ class Effects:
                     return {Root("FRESH", f".{m}()")}
                 recv = rec(e.func.value)
                 if m in ELEMENT_READS:
-                    if e.args and self.is_docname(e.args[0], fi):
+                    if e.args and self.is_docname(e.args[0], fi) and isinstance(e.func.value, ast.Attribute) and e.func.value.attr in ENV_MERGED:
                         return {r.keyed() for r in recv}
                     return {r.derived() for r in recv}
                 if m.startswith("get_") and any(r.kind == "ENV" for r in recv):
@@ -668,16 +735,16 @@ class Effects:
                     tgts = [(x, "del", None) for t in n.targets for x, _ in _flatten(t)]
                 for t, how, val in tgts:
                     if isinstance(t, (ast.Attribute, ast.Subscript)):
-                        out.append(Site(fi, n, t.value, unparse(t), how, val))
+                        out.append(Site(fi, n, t.value, _ntext(t, fi), how, val))
                     elif isinstance(t, ast.Name) and t.id in globals_declared:
                         out.append(Site(fi, n, t, t.id, "global", val))
                 if isinstance(n, ast.Call):
                     d = dotted(n.func)
                     if d in ("setattr", "delattr") and n.args:
                         attr = n.args[1].value if len(n.args) > 1 and isinstance(n.args[1], ast.Constant) else "*"
-                        out.append(Site(fi, n, n.args[0], f"{unparse(n.args[0])}.{attr}", "setattr", n.args[2] if len(n.args) > 2 else None))
+                        out.append(Site(fi, n, n.args[0], f"{_ntext(ast.Attribute(value=n.args[0], attr='x', ctx=ast.Load()), fi)[:-2]}.{attr}", "setattr", n.args[2] if len(n.args) > 2 else None))
                     elif isinstance(n.func, ast.Attribute) and n.func.attr in MUTATORS:
-                        out.append(Site(fi, n, n.func.value, unparse(n.func.value), f"mutator:{n.func.attr}"))
+                        out.append(Site(fi, n, n.func.value, _ntext(n.func.value, fi), f"mutator:{n.func.attr}"))
                     elif isinstance(n.func, ast.Attribute) and n.func.attr not in _VALUE_METHODS:
                         if any(r.kind == "ENV" for r in self.classify(n.func.value, fi)) and not self.g.flat_targets(self.g.resolve_call(n, fi)):
                             out.append(Site(fi, n, n.func.value, unparse(n.func.value), f"envcall:{n.func.attr}"))
@@ -785,6 +852,32 @@ def _on_every_parse(ef: Effects, fi: FunctionInfo, node: ast.AST, written: str, 
     return False if any(r is False for r in res) else None
 
 
+def _on_every_render(ef: Effects, fi: FunctionInfo, node: ast.AST, depth: int = 0):
+    """The statement executes on every normal path of the renderer's render() (directly or through methods that
+    render() calls unconditionally)."""
+    if fi.is_lambda:
+        return False
+    cfg = get_cfg(fi)
+    st = cfg.stmt_of(node)
+    p = parent(st)
+    while isinstance(p, ast.For) and isinstance(p.iter, (ast.Tuple, ast.List)) and p.iter.elts and st in p.body and not any(isinstance(x, (ast.Break, ast.Continue)) for x in ast.walk(p)):
+        st, p = p, parent(p)  # a loop over a non-empty literal always runs its body
+    if not cfg.postdominates(st, "ENTRY"):
+        return False
+    impls = {t.fq for t in ef.g.special_targets(MD_RENDER, fi)}
+    if fi.fq in impls:
+        return True
+    if depth >= 3:
+        return None
+    callers = [(c, call) for c, call in ef.g.callers().get(fi.fq, []) if c.fq in ef.parse_reach]
+    if not callers:
+        return None
+    res = [_on_every_render(ef, c, call, depth + 1) for c, call in callers]
+    if all(r is True for r in res):
+        return True
+    return False if any(r is False for r in res) else None
+
+
 def _stores_in(stmts: list[ast.stmt]):
     for st in stmts:
         for n in ast.walk(st):
@@ -800,19 +893,20 @@ def _covers(place: str, written: str) -> bool:
 _COPY_CALLS = {"copy", "deepcopy", "copy.copy", "copy.deepcopy", "set", "dict", "list", "frozenset", "tuple"}
 
 
-def _saved_from(value: ast.expr, place: str) -> str | None:
-    """'copy' / 'alias' when ``value`` reads ``place`` (the text of an attribute/subscript expression), else None."""
-    if unparse(value) == place:
+def _saved_from(value: ast.expr, place: str, fi: FunctionInfo) -> str | None:
+    """'copy' / 'alias' when ``value`` reads ``place`` (the normalised text of an attribute/subscript expression), else None."""
+    nt = lambda x: _ntext(x, fi)  # noqa: E731
+    if nt(value) == place:
         return "alias"
     if isinstance(value, ast.Call):
         d = dotted(value.func) or ""
-        if d in _COPY_CALLS and len(value.args) == 1 and unparse(value.args[0]) == place:
+        if d in _COPY_CALLS and len(value.args) == 1 and nt(value.args[0]) == place:
             return "copy"
-        if isinstance(value.func, ast.Attribute) and value.func.attr in ("copy", "deepcopy") and unparse(value.func.value) == place:
+        if isinstance(value.func, ast.Attribute) and value.func.attr in ("copy", "deepcopy") and nt(value.func.value) == place:
             return "copy"
-        if d == "getattr" and len(value.args) >= 2 and isinstance(value.args[1], ast.Constant) and f"{unparse(value.args[0])}.{value.args[1].value}" == place:
+        if d == "getattr" and len(value.args) >= 2 and isinstance(value.args[1], ast.Constant) and f"{nt(ast.Attribute(value=value.args[0], attr='x', ctx=ast.Load()))[:-2]}.{value.args[1].value}" == place:
             return "alias"
-        if isinstance(value.func, ast.Attribute) and value.func.attr == "get" and value.args and f"{unparse(value.func.value)}[{unparse(value.args[0])}]" == place:
+        if isinstance(value.func, ast.Attribute) and value.func.attr == "get" and value.args and f"{nt(value.func.value)}[{unparse(value.args[0])}]" == place:
             return "alias"
     return None
 
@@ -831,9 +925,9 @@ def _restore_info(fi: FunctionInfo, st: ast.Assign):
     """For ``PLACE = name``: (name, [(def stmt, 'copy'|'alias'|None)]) or None when the RHS is not a plain name."""
     if not isinstance(st.value, ast.Name):
         return None
-    place = unparse(st.targets[0])
+    place = _ntext(st.targets[0], fi)
     defs = _name_defs(fi, st.value.id)
-    return st.value.id, [(d, _saved_from(d.value, place) if getattr(d, "value", None) is not None else None) for d in defs]
+    return st.value.id, [(d, _saved_from(d.value, place, fi) if getattr(d, "value", None) is not None else None) for d in defs]
 
 
 def _is_constant_rhs(v: ast.expr | None, fi: FunctionInfo, ef: Effects) -> str | None:
@@ -877,6 +971,24 @@ def _render_calls(ef: Effects, fi: FunctionInfo) -> list[ast.Call]:
 # R1 effect classification
 
 
+EFFECT_PREFIXES = ("note_", "add_", "set_", "register", "clear", "merge", "process_", "remove", "connect", "emit", "update", "store", "write", "delete")
+
+
+def _structural_env_receiver(ef: Effects, e: ast.expr, fi: FunctionInfo) -> bool:
+    """The receiver is the env/app/a domain itself (an attribute chain on them, or a local bound to one), not data read out of it."""
+    def marked(x: ast.expr) -> bool:
+        return any(isinstance(n, ast.Attribute) and (n.attr in ENV_ATTRS or n.attr == "sphinx_env") for n in ast.walk(x)) or any(
+            isinstance(n, ast.Name) and any(r.kind == "ENV" and r.obj for r in ef.classify(n, fi)) for n in ast.walk(x) if isinstance(n, ast.Name) and n.id != "self"
+        )
+
+    if marked(e):
+        return True
+    if isinstance(e, ast.Name):
+        f, binds = ef.lookup(e.id, fi)
+        return any(kind == "assign" and v is not None and marked(v) for kind, v, _ in binds or [])
+    return False
+
+
 def _judge_shared(ef: Effects, s: Site, roots: frozenset) -> tuple[str, str]:
     """('ok'|'assumed'|'violation'|'error', reason) for a write whose object has a shared root."""
     fi = s.fi
@@ -900,20 +1012,42 @@ def _judge_shared(ef: Effects, s: Site, roots: frozenset) -> tuple[str, str]:
                 if not (call.args and ef.is_docname(call.args[0], fi)):
                     return "violation", f"{what}: equation registered under a key that is not env.docname"
             return "ok", "tabled env API: " + ENV_API[m]
-        return "error", f"{s.site}: unknown method `{m}` called on the Sphinx env/app/domain in parse reach ({short(s.node, 60)}): add it to ENV_API or ENV_PURE after reading it"
+        if m.startswith(EFFECT_PREFIXES) or _structural_env_receiver(ef, s.container, fi):
+            return "error", f"{s.site}: unknown method `{m}` called on the Sphinx env/app/domain in parse reach ({short(s.node, 60)}): add it to ENV_API or ENV_PURE after reading it"
+        return "skip", ""  # a method of some value that was read out of the env (flow-insensitive name reuse included)
     if s.how.startswith("envarg:"):
         callee = s.how.split(":", 1)[1]
         if callee in ENV_ARG_API:
             return "ok", "tabled: " + ENV_ARG_API[callee]
+        last = callee.rsplit(".", 1)[-1]
+        if "." in callee and last in ENV_PURE:
+            return "skip", ""
+        if "." in callee and last in ENV_API:
+            return "ok", "tabled env API: " + ENV_API[last]
         call = s.node
         if ef.g.flat_targets(ef.g.resolve_call(call, fi)):
             return "skip", ""  # a package function: its own writes are judged where they happen
         return "error", f"{s.site}: the Sphinx env/app object is handed to `{callee}`, which is not in ENV_ARG_API"
     if any(r.kind == "ENV" for r in roots):
         envroots = [r for r in roots if r.kind == "ENV"]
-        if all(r.dockey for r in envroots) or (s.how.startswith("mutator:") and isinstance(s.node, ast.Call) and s.node.args and ef.is_docname(s.node.args[0], fi)):
+        if all(r.dockey for r in envroots) or (s.how.startswith("mutator:") and isinstance(s.node, ast.Call) and s.node.args and ef.is_docname(s.node.args[0], fi) and isinstance(s.container, ast.Attribute) and s.container.attr in ENV_MERGED):
             if len(envroots) == len([r for r in roots if r.kind in SHARED]):
-                return "ok", "env data keyed by env.docname (merged per document by Sphinx)"
+                return "ok", "env attribute that Sphinx merges per document (metadata & co.), keyed by env.docname"
+    if "SETTINGS" in kinds:
+        ctext = unparse(s.container)
+        for attr_, why_ in SETTINGS_API.items():
+            if f".settings.{attr_}" in s.written:
+                return "ok", "tabled: " + why_
+        if s.how in ("store", "setattr") and (ctext.endswith("settings") or isinstance(s.container, ast.Name)):
+            reads_settings = s.value is not None and any(
+                isinstance(n, (ast.Name, ast.Attribute)) and any(r.kind == "SETTINGS" for r in ef.classify(n, fi)) for n in ast.walk(s.value)
+            )
+            if reads_settings:
+                return "violation", f"{what}: the stored value is computed from what the settings object already holds; under Sphinx that is what the previously read document left there"
+            if _on_every_render(ef, fi, s.node) is True:
+                return "ok", "settings attribute overwritten from the document's own config on every render, before the transforms read it"
+            return "violation", f"{what}: the store does not happen on every render, so later documents see the value an earlier document left on the shared settings object"
+        return "violation", f"{what}: in-place change of an object hanging off the settings object that all documents of a Sphinx build share"
     # save/restore shapes
     if isinstance(s.node, ast.Assign) and s.how == "store":
         info = _restore_info(fi, s.node)
@@ -926,7 +1060,7 @@ def _judge_shared(ef: Effects, s: Site, roots: frozenset) -> tuple[str, str]:
         return "ok", "env.temp_data / env.ref_context: per-document scratch space that Sphinx clears after every read"
     for tr in _covering_tries(fi, s.node):
         for st in _stores_in(tr.finalbody):
-            if _covers(unparse(st.targets[0]), s.written) and _restore_info(fi, st) is not None:
+            if _covers(_ntext(st.targets[0], fi), s.written) and _restore_info(fi, st) is not None:
                 return "ok", f"temporary: the enclosing try restores `{short(st.targets[0], 50)}` in finally (pairing checked by R2)"
     # constant install executed on every parse
     tgt0 = s.node.targets[0] if isinstance(s.node, ast.Assign) and len(s.node.targets) == 1 else None
@@ -1207,38 +1341,133 @@ def r4_freshness(corpus: Corpus, rep: Report, tier: str):
                 rep.ok("C15.R4", k, cmp_.module.site(n), "renderer class passed through: MarkdownIt instantiates it per parser")
             else:
                 rep.violation("C15.R4", k, cmp_.module.site(n), "MarkdownIt is not given the caller's renderer class via renderer_cls=: the renderer is not created per parser")
-    # (b) every caller keeps the parser in a local and passes a renderer *class*
+    # (b) the object each parse method renders with is constructed during that call
+    def is_class_arg(rcls: ast.expr | None, fi: FunctionInfo, depth: int = 0):
+        """True / False / None(unknown) - the renderer argument is a class (possibly forwarded through a parameter)."""
+        if rcls is None:
+            return False
+        if isinstance(rcls, ast.Name) and rcls.id in fi.params and depth < 3:
+            sites_ = g.callers().get(fi.fq, [])
+            if not sites_:
+                return None
+            idx = fi.params.index(rcls.id) - (1 if (fi.cls is not None and fi.params[0] in ("self", "cls")) else 0)
+            res = []
+            for cfi, ccall in sites_:
+                arg = ccall.args[idx] if 0 <= idx < len(ccall.args) else None
+                for kw in ccall.keywords:
+                    if kw.arg == rcls.id:
+                        arg = kw.value
+                res.append(is_class_arg(arg, cfi, depth + 1))
+            return False if any(r is False for r in res) else (None if any(r is None for r in res) else True)
+        d = dotted(rcls) or ""
+        return isinstance(rcls, (ast.Name, ast.Attribute)) and (corpus.find_class(fi.module.resolve(d)) is not None or d.rsplit(".", 1)[-1][:1].isupper())
+
+    def origin(e: ast.expr, fi: FunctionInfo, depth: int = 0) -> list[tuple[bool | None, str, str]]:
+        """Where the parser value comes from: [(fresh?, site, why)]; fresh? None = not understood."""
+        site = fi.module.site(e)
+        if depth > 5:
+            return [(None, site, "call chain too deep")]
+        if isinstance(e, ast.Call):
+            if _derives_from_ctor(ef, e, fi, ctor):
+                return [(True, site, f"{ctor}(...) constructed here")]
+            targets = [t for t in g.flat_targets(g.resolve_call(e, fi)) if not t.is_lambda]
+            if targets and len(targets) <= 3:
+                out_: list = []
+                for t in targets:
+                    rs = [n for n in walk_local(t.node, into_lambdas=False) if isinstance(n, ast.Return) and n.value is not None]
+                    if not rs:
+                        out_.append((None, t.site(), f"{t.qualname} returns nothing"))
+                    for r in rs:
+                        out_ += origin(r.value, t, depth + 1)
+                return out_
+            return [(None, site, f"result of `{short(e, 40)}`")]
+        if isinstance(e, ast.Name):
+            f, binds = ef.lookup(e.id, fi)
+            out_ = []
+            for kind, v, path in binds or []:
+                if kind == "assign" and v is not None and not path:
+                    if isinstance(v, ast.Call) and isinstance(v.func, ast.Attribute) and _root_name(v.func.value) == e.id:
+                        continue  # md = md.use(...)
+                    out_ += origin(v, f, depth + 1)
+                elif kind == "param":
+                    idx = f.params.index(e.id) - (1 if (f.cls is not None and f.params[0] in ("self", "cls")) else 0)
+                    for cfi, ccall in g.callers().get(f.fq, []):
+                        arg = ccall.args[idx] if 0 <= idx < len(ccall.args) else None
+                        for kw in ccall.keywords:
+                            if kw.arg == e.id:
+                                arg = kw.value
+                        if arg is not None:
+                            out_ += origin(arg, cfi, depth + 1)
+                else:
+                    out_.append((None, site, f"`{e.id}` bound by {kind}"))
+            if not binds:
+                m_ = fi.module
+                if e.id in m_.const_nodes:
+                    return [(False, site, f"the module-level object `{m_.name}.{e.id}`")]
+                return [(None, site, f"name `{e.id}`")]
+            return out_ or [(None, site, f"`{e.id}` has no understood definition")]
+        if isinstance(e, (ast.Subscript, ast.Attribute)):
+            return [(False, site, f"read from `{short(e, 40)}`: an instance that was stored earlier")]
+        if isinstance(e, ast.IfExp):
+            return origin(e.body, fi, depth + 1) + origin(e.orelse, fi, depth + 1)
+        if isinstance(e, ast.Call) or isinstance(e, ast.NamedExpr):
+            return [(None, site, "expression not understood")]
+        return [(None, site, f"{type(e).__name__} expression")]
+
+    for efq in RENDER_ENTRIES:
+        fi = corpus.func(efq)
+        k = f"{fi.fq}|parser used for the render is built in this call"
+        recvs: list[tuple[ast.expr, FunctionInfo]] = []
+        for call in _render_calls(ef, fi):
+            if isinstance(call.func, ast.Attribute) and call.func.attr == "render":
+                recvs.append((call.func.value, fi))
+            else:  # a helper that renders: the parser is one of the arguments, or is built inside the helper
+                for t in g.flat_targets(g.resolve_call(call, fi)):
+                    for c2, _tg in g.callees(t):
+                        if isinstance(c2.func, ast.Attribute) and c2.func.attr == "render" and ef.special_kind(c2, t) == MD_RENDER:
+                            recvs.append((c2.func.value, t))
+        if not recvs:
+            rep.error("C15.R4", f"{fi.fq}: the receiver of the render call was not found")
+            continue
+        res = [x for r_, f_ in recvs for x in origin(r_, f_)]
+        bad = [x for x in res if x[0] is False]
+        unk = [x for x in res if x[0] is None]
+        if bad:
+            rep.violation("C15.R4", k, bad[0][1], f"{fi.qualname} renders with a parser that is {bad[0][2]}: parser and renderer state (md.options['document'], renderer attributes, enabled rules, plugin arguments baked in at construction) is shared between parses")
+        elif unk or not res:
+            rep.error("C15.R4", f"{fi.fq}: origin of the parser not understood ({unk[0][2] if unk else 'no definition'} at {unk[0][1] if unk else fi.site()})")
+        else:
+            rep.ok("C15.R4", k, res[0][1], f"{len(res)} origin(s), all constructed inside the call")
+    # every caller of create_md_parser keeps the new parser in a local and passes a renderer *class*
     callers = g.callers().get(cmp_.fq, [])
-    entry_fqs = {corpus.func(e).fq for e in RENDER_ENTRIES}
-    found_entries = set()
     for fi, call in callers:
         k = f"{fi.fq}|{short(call, 60)}"
         site = fi.module.site(call)
         p = parent(call)
-        if fi.fq in entry_fqs:
-            found_entries.add(fi.fq)
         rcls = call.args[1] if len(call.args) > 1 else None
         for kw in call.keywords:
             if kw.arg == "renderer":
                 rcls = kw.value
-        if rcls is None or not (isinstance(rcls, (ast.Name, ast.Attribute)) and (corpus.find_class(fi.module.resolve(dotted(rcls) or "")) is not None or (dotted(rcls) or "").rsplit(".", 1)[-1][:1].isupper())):
+        isc = is_class_arg(rcls, fi)
+        if isc is False:
             rep.violation("C15.R4", k, site, f"the renderer argument `{short(rcls, 30) if rcls is not None else None}` is not a class name: a renderer instance would be shared")
+            continue
+        if isc is None:
+            rep.error("C15.R4", f"{site}: cannot tell whether the renderer argument `{short(rcls, 30)}` is a class")
             continue
         if isinstance(p, (ast.Assign, ast.AnnAssign)) and all(isinstance(t, ast.Name) for t in (p.targets if isinstance(p, ast.Assign) else [p.target])):
             name = (p.targets[0] if isinstance(p, ast.Assign) else p.target).id
             esc = _escapes(fi, name)
-            if esc and fi.fq in ef.parse_reach:
+            if esc and esc != "returned" and fi.fq in ef.parse_reach:
                 rep.violation("C15.R4", k, site, f"the parser created for this parse is {esc}: it outlives the call and the next parse may reuse it")
             else:
-                rep.ok("C15.R4", k, site, f"kept in the local `{name}` only")
+                rep.ok("C15.R4", k, site, f"kept in the local `{name}` only" + (" and returned to the caller (judged there)" if esc == "returned" else ""))
         elif isinstance(p, ast.Expr) or (isinstance(p, ast.Attribute) and isinstance(parent(p), ast.Call)):
             rep.ok("C15.R4", k, site, "used at once, not kept")
         elif isinstance(p, ast.Return):
-            rep.error("C15.R4", f"{site}: create_md_parser(...) is returned by the helper {fi.qualname}: follow-up of the helper's callers is not implemented (idiom not understood)")
+            rep.ok("C15.R4", k, site, f"returned by the helper {fi.qualname}: judged at the parse methods")
         else:
             rep.violation("C15.R4", k, site, f"the new parser is bound by `{short(p, 60)}`, not by a plain local variable: it can outlive the parse")
-    for e in sorted(entry_fqs - found_entries):
-        rep.error("C15.R4", f"{e} no longer calls create_md_parser itself: where the parser comes from is not understood")
     # (c) no instance at module/class level
     for m in corpus.modules.values():
         if m.name.endswith("._docs"):
@@ -1577,6 +1806,178 @@ def _default_role_reset(corpus: Corpus, ef: Effects, rep: Report) -> None:
         )
 
 
+
+# ---------------------------------------------------------------------------
+# R8 per-instance ownership of configuration fields that are mutated in place
+
+
+def _field_validators(corpus: Corpus) -> dict[str, list[ast.expr]]:
+    """field name -> validator expressions from ``dc.field(metadata={"validator": ...})`` of MdParserConfig."""
+    ci = corpus.cls(CONFIG_CLS.replace("myst_parser.", "", 1))
+    out: dict[str, list[ast.expr]] = {}
+    for st in ci.node.body:
+        if isinstance(st, ast.AnnAssign) and isinstance(st.target, ast.Name) and isinstance(st.value, ast.Call):
+            for kw in st.value.keywords:
+                if kw.arg == "metadata" and isinstance(kw.value, ast.Dict):
+                    for k_, v_ in zip(kw.value.keys, kw.value.values):
+                        if isinstance(k_, ast.Constant) and k_.value == "validator":
+                            out[st.target.id] = list(v_.elts) if isinstance(v_, (ast.List, ast.Tuple)) else [v_]
+    return out
+
+
+@rule("C15.R8")
+def r8_field_ownership(corpus: Corpus, rep: Report, tier: str):
+    rep.rule("C15.R8", "a configuration field that is mutated in place (even temporarily) is re-created for every MdParserConfig instance: copy() is shallow, only a validator that unconditionally stores a new object keeps the copies apart")
+    ef = _effects(corpus)
+    ci = ef.config_cls
+    # copy() -> dataclasses.replace -> __init__ -> __post_init__ -> validate_fields(self): the validators run for every copy
+    pi = corpus.lookup_method(ci, "__post_init__")
+    if pi is None or not any(isinstance(c, ast.Call) and (dotted(c.func) or "") == "validate_fields" and c.args and unparse(c.args[0]) == "self" for c in walk_local(pi.node)):
+        rep.error("C15.R8", "MdParserConfig.__post_init__ no longer calls validate_fields(self): how copies get their own field objects is not understood")
+        return
+    validators = _field_validators(corpus)
+    if len(validators) < 20:
+        rep.error("C15.R8", f"only {len(validators)} field validators found in MdParserConfig")
+        return
+    n = 0
+    seen = set()
+    for s in ef.sites():
+        if s.fi.fq not in ef.parse_reach or not (s.how.startswith("mutator:") or (s.how in ("store", "aug", "del") and isinstance(s.node, (ast.Assign, ast.AugAssign, ast.Delete)) and s.written != f"{unparse(s.container)}." )):
+            continue
+        # in-place change of the object held by <config>.<field>
+        c = s.container
+        if s.how in ("store", "aug", "del"):
+            # container[k] = v  /  del container[k]   (attribute stores rebind, they do not mutate the field object)
+            tg = s.node.targets[0] if isinstance(s.node, (ast.Assign, ast.Delete)) else s.node.target
+            if not isinstance(tg, ast.Subscript):
+                continue
+        if not isinstance(c, ast.Attribute):
+            # alias: x = cfg.field; x.add(...)
+            if isinstance(c, ast.Name):
+                f_, binds = ef.lookup(c.id, s.fi)
+                vals = [v for kind, v, p_ in binds or [] if kind == "assign" and v is not None and not p_ and isinstance(v, ast.Attribute)]
+                if len(vals) != 1:
+                    continue
+                c = vals[0]
+            else:
+                continue
+        if ef._is_config_type(c.value, s.fi) != "CONFIG" and not any(r.kind == "CONFIG" for r in ef.classify(c.value, s.fi)):
+            continue
+        field = c.attr
+        if field not in validators:
+            continue
+        k = f"MdParserConfig.{field}|mutated in place by {s.fi.qualname}"
+        if k in seen:
+            continue
+        seen.add(k)
+        n += 1
+        owned = None
+        why = ""
+        for v in validators[field]:
+            fn = corpus.find_function(ci.module.resolve(dotted(v) or "")) if dotted(v) else None
+            if fn is None:
+                why = f"its validator `{short(v, 40)}` only checks the value, so every copy of the config holds the same object as the config it was copied from"
+                continue
+            cfg = get_cfg(fn)
+            stores_: list[tuple[ast.AST, ast.expr]] = []
+            for c2 in walk_local(fn.node, into_lambdas=False):
+                if isinstance(c2, ast.Call) and (dotted(c2.func) or "").endswith("setattr") and len(c2.args) >= 3 and unparse(c2.args[-3]) == fn.params[0]:
+                    stores_.append((c2, c2.args[-1]))
+                elif isinstance(c2, ast.Assign) and len(c2.targets) == 1 and isinstance(c2.targets[0], ast.Attribute) and unparse(c2.targets[0].value) == fn.params[0]:
+                    stores_.append((c2, c2.value))
+            for c2, val_ in stores_:
+                if True:
+                    roots_ = ef.classify(val_, fn)
+                    fresh = bool(roots_) and all(r.kind == "FRESH" for r in roots_)
+                    uncond = cfg.postdominates(cfg.stmt_of(c2), "ENTRY")
+                    if fresh and uncond:
+                        owned = fn
+                    elif fresh:
+                        why = f"{fn.qualname} stores a new object only on some paths (`{short(cfg.stmt_of(c2), 50)}` is conditional): when it is skipped, copy() leaves the copy sharing the object with the global config"
+                    else:
+                        why = why or f"{fn.qualname} stores `{short(val_, 40)}`, which is not (always) a newly built object"
+        if owned is not None:
+            rep.ok("C15.R8", k, s.site, f"{owned.qualname} unconditionally stores a new object on the instance, so every copy() owns its {field}")
+        else:
+            rep.violation("C15.R8", k, s.site, f"`{short(s.node, 60)}` changes the {field} object in place, but {why or 'no validator re-creates it per instance'}: the change reaches the global configuration (and every later document) even though the attribute is restored on the per-document copy")
+    if n == 0:
+        rep.ok("C15.R8", "no configuration field is mutated in place in parse reach", "myst_parser", "nothing to own")
+
+
+# ---------------------------------------------------------------------------
+# R9 state kept on the (pickled) build environment is refreshed by every build
+
+
+@rule("C15.R9")
+def r9_env_config_refreshed(corpus: Corpus, rep: Report, tier: str):
+    rep.rule("C15.R9", "every env attribute the parsers read (env.myst_config) is assigned on every normal path of its builder-inited handler: the environment is pickled and re-loaded, a skipped store means the previous build's value is used")
+    ef = _effects(corpus)
+    # attributes of the env read in parse reach
+    read_attrs: dict[str, str] = {}
+    for fi in corpus.all_functions():
+        if fi.fq not in ef.parse_reach or fi.is_lambda:
+            continue
+        for n in walk_local(fi.node, into_lambdas=False):
+            if isinstance(n, ast.Attribute) and isinstance(n.ctx, ast.Load) and isinstance(n.value, ast.Attribute) and n.value.attr == "env" and n.attr.startswith("myst"):
+                read_attrs.setdefault(n.attr, fi.module.site(n))
+    if not read_attrs:
+        rep.error("C15.R9", "no env.myst* attribute is read in parse reach (expected env.myst_config)")
+        return
+    handlers: list[FunctionInfo] = []
+    for f2 in corpus.all_functions():
+        if f2.fq not in ef.build_reach or f2.is_lambda:
+            continue
+        for c in walk_local(f2.node):
+            if isinstance(c, ast.Call) and isinstance(c.func, ast.Attribute) and c.func.attr == "connect" and len(c.args) >= 2 and isinstance(c.args[0], ast.Constant) and c.args[0].value == "builder-inited" and dotted(c.args[1]):
+                h = corpus.find_function(f2.module.resolve(dotted(c.args[1])))
+                if h is not None and h not in handlers:
+                    handlers.append(h)
+    for attr, rsite in sorted(read_attrs.items()):
+        writers: dict[str, list[Site]] = {}
+        for s in ef.sites():
+            if s.how in ("store", "setattr") and (s.written.endswith(f".env.{attr}") or s.written == f"env.{attr}"):
+                writers.setdefault(s.fi.fq, []).append(s)
+        if not writers:
+            rep.violation("C15.R9", f"env.{attr}|assigned by a builder-inited handler", rsite, f"env.{attr} is read during parsing but never assigned by the package")
+            continue
+
+        def always_stores(fq: str) -> bool:
+            ss_ = writers.get(fq)
+            if not ss_:
+                return False
+            c_ = get_cfg(ss_[0].fi)
+            st_ = {c_.stmt_of(x.node) for x in ss_}
+            return not c_.paths_avoiding("ENTRY", "EXIT", lambda n_: n_ in st_)
+
+        judged = 0
+        for h in handlers:
+            cfg = get_cfg(h)
+            events = {cfg.stmt_of(x.node) for x in writers.get(h.fq, [])}
+            for call, targets in ef.g.callees(h):
+                if any(always_stores(t.fq) for t in ef.g.flat_targets(targets)):
+                    events.add(cfg.stmt_of(call))
+            if not events:
+                continue
+            judged += 1
+            k2 = f"{h.fq}|env.{attr} assigned on every path"
+            # a store inside a try body may be the statement that raised: the handler path has not assigned anything yet
+            handler_gap = False
+            for tr_ in [n_ for n_ in walk_local(h.node, into_lambdas=False) if isinstance(n_, ast.Try) and n_.handlers]:
+                body_nodes_ = {id(x) for b_ in tr_.body for x in ast.walk(b_)}
+                if any(id(e_) in body_nodes_ for e_ in events):
+                    outside = {e_ for e_ in events if id(e_) not in body_nodes_}
+                    for hd in tr_.handlers:
+                        if ("H", hd) in cfg.succ and cfg.paths_avoiding(("H", hd), "EXIT", lambda n_: n_ in outside):
+                            handler_gap = True
+            if handler_gap or cfg.paths_avoiding("ENTRY", "EXIT", lambda n_: n_ in events):
+                rep.violation("C15.R9", k2, h.site(), f"some normal path through {h.qualname} returns without assigning env.{attr}: the environment is un-pickled from the previous build, so that path keeps the previous build's configuration whatever conf.py says now")
+            else:
+                rep.ok("C15.R9", k2, h.site(), f"every normal path assigns env.{attr}; connected to builder-inited")
+        if not judged:
+            w0 = next(iter(writers.values()))[0]
+            rep.violation("C15.R9", f"env.{attr}|assigned by a builder-inited handler", w0.site, f"env.{attr} is assigned by {w0.fi.qualname}, but no function connected to 'builder-inited' in the setup code does or calls that: nothing refreshes the attribute when a build starts with a re-loaded environment")
+    rep.expect_min("C15.R9", 1, "create_myst_config")
+
 # ---------------------------------------------------------------------------
 # R6 document-scoped state (evidence only)
 
@@ -1592,7 +1993,7 @@ def r6_document_scoped(corpus: Corpus, rep: Report, tier: str):
             continue
         c = unparse(s.container)
         tail = c.rsplit(".", 1)[-1]
-        if tail in ("document", "settings", "reporter", "md_env") or c in ("document",):
+        if tail in ("document", "reporter", "md_env") or c in ("document",):
             if any(r.kind in SHARED for r in ef.roots(s)):
                 continue
             k = f"{s.fi.fq}|{s.written}"
@@ -1601,7 +2002,7 @@ def r6_document_scoped(corpus: Corpus, rep: Report, tier: str):
             seen.add(k)
             n += 1
             rep.listed("C15.R6", k, s.site, f"{s.how}: per-parse object")
-    if n < 8:
+    if n < 6:
         rep.error("C15.R6", f"only {n} document-scoped writes found (expected myst_slugs, sub_references, myst_include_stack, footnote settings, source overrides ...)")
 
 
@@ -1643,7 +2044,7 @@ def r2_pairing(corpus: Corpus, rep: Report, tier: str):
             before_sites = _written_places(ef, fi, before)
             # (i) PLACE = saved
             for st in _stores_in(tr.finalbody):
-                place = unparse(st.targets[0])
+                place = _ntext(st.targets[0], fi)
                 k = f"{fi.fq}|finally restores {place}"
                 site = fi.module.site(st)
                 info = _restore_info(fi, st)
@@ -1678,7 +2079,7 @@ def r2_pairing(corpus: Corpus, rep: Report, tier: str):
                     if isinstance(n, ast.Call) and isinstance(n.func, ast.Attribute) and n.func.attr in INVERSE and isinstance(parent(n), ast.Expr):
                         undo = n
                     if undo is not None:
-                        recv = unparse(undo.func.value)
+                        recv = _ntext(undo.func.value, fi)
                         m = undo.func.attr
                         k = f"{fi.fq}|finally {recv}.{m}({', '.join(unparse(a) for a in undo.args)})"
                         site = fi.module.site(undo)
@@ -1703,7 +2104,7 @@ def r2_pairing(corpus: Corpus, rep: Report, tier: str):
                             rep.violation("C15.R2", k, site, f"finally calls {recv}.{m}(...) but no matching {'/'.join(INVERSE[m])} on the same object with the same argument precedes it: what is removed is not what was added")
                     if isinstance(n, ast.Delete):
                         for t in n.targets:
-                            txt = unparse(t)
+                            txt = _ntext(t, fi)
                             k = f"{fi.fq}|finally del {txt}"
                             fw = [s for s in body_sites if s.written == txt and s.how == "store"]
                             if fw:
@@ -1712,7 +2113,7 @@ def r2_pairing(corpus: Corpus, rep: Report, tier: str):
                                 rep.listed("C15.R2", k, fi.module.site(n), f"finally deletes `{txt}`; no store of it is visible in the try body - not judged")
     rep.expect_min("C15.R2", 6, "restore/undo statements in finally blocks (figure-md 1, include mock 7, substitution 1)")
 
-RULES = [r1_effect_classification, r2_pairing, r3_pure_caches, r4_freshness, r5_reset_completeness, r6_document_scoped, r7_nondeterminism]
+RULES = [r1_effect_classification, r2_pairing, r3_pure_caches, r4_freshness, r5_reset_completeness, r6_document_scoped, r7_nondeterminism, r8_field_ownership, r9_env_config_refreshed]
 
 
 
@@ -1895,4 +2296,64 @@ def mutants(corpus: Corpus):
     if body:
         ind = indent_of(f, body[0])
         add("c15-revert-6901ce7-uuid4-equation-label", "C15.R7", f, _multi_splice(sx.src, [(body[0], "from uuid import uuid4\n\n" + ind + "return str(uuid4())")] + [(x, "pass") for x in body[1:-1]] + ([(body[-1], "pass")] if len(body) > 1 else [])), "_random_label")
+    # --- round-2 seed classes -----------------------------------------------------------------------
+    cm = corpus.mod("config.main")
+    # R8: the normalising validator no longer gives every instance its own object
+    f = cm.func("check_extensions")
+    st = find_stmt(f, lambda n: isinstance(n, ast.Expr) and isinstance(n.value, ast.Call) and dotted(n.value.func) == "setattr")
+    if st is not None:
+        ind = indent_of(f, st)
+        add("c15-validator-copies-only-non-sets", "C15.R8", f, splice(cm.src, st, "if not isinstance(value, set):\n" + ind + "    " + _seg(f, st)), "enable_extensions")
+        add("c15-validator-stores-given-set", "C15.R8", f, splice(cm.src, st.value.args[2], "(value if isinstance(value, set) else set(value))"), "enable_extensions")
+    else:
+        out.append(("c15-validator-copies-only-non-sets", "setattr in check_extensions not found"))
+    f = corpus.func("sphinx_ext.directives:FigureMarkdown.run")
+    addst = find_stmt(f, lambda n: isinstance(n, ast.Expr) and isinstance(n.value, ast.Call) and unparse(n.value.func).endswith("enable_extensions.add"))
+    if addst is not None:
+        recv = unparse(addst.value.func.value.value)  # <config expr>
+        add("c15-unowned-field-mutated-in-place", "C15.R8", f, splice(f.module.src, addst, _seg(f, addst) + "\n" + indent_of(f, addst) + f"{recv}.disable_syntax.append('html_block')"), "disable_syntax")
+    # R9: env.myst_config not refreshed on every build
+    sm = corpus.mod("sphinx_ext.main")
+    f = sm.func("create_myst_config")
+    add("c15-config-kept-when-env-already-has-one", "C15.R9", f, _prepend_stmt(f, 'if hasattr(app.env, "myst_config"):\n        return'), "create_myst_config")
+    h = find_node(f, lambda n: isinstance(n, ast.ExceptHandler))
+    if h is not None:
+        stx = [x for x in h.body if isinstance(x, ast.Assign) and unparse(x.targets[0]).endswith("env.myst_config")]
+        if stx:
+            add("c15-invalid-config-keeps-previous-build-config", "C15.R9", f, splice(sm.src, stx[0], "pass"), "create_myst_config")
+    f = sm.func("setup_sphinx")
+    st = find_stmt(f, lambda n: isinstance(n, ast.Expr) and isinstance(n.value, ast.Call) and unparse(n.value.func) == "app.connect" and len(n.value.args) == 2 and unparse(n.value.args[1]) == "create_myst_config")
+    if st is not None:
+        add("c15-config-handler-not-on-builder-inited", "C15.R9", f, splice(sm.src, st.value.args[0], "'env-before-read-docs'"), "myst_config")
+    # R1: the settings object shared by all documents of a Sphinx build
+    f = base.func("DocutilsRenderer._render_finalise")
+    st = find_stmt(f, lambda n: isinstance(n, ast.Assign) and unparse(n.targets[0]).endswith("settings.myst_footnote_sort"))
+    if st is not None:
+        ind = indent_of(f, st)
+        add("c15-settings-written-only-when-unset", "C15.R1", f, splice(base.src, st, 'if not getattr(self.document.settings, "myst_footnote_sort", None):\n' + ind + "    " + _seg(f, st)), "myst_footnote_sort")
+        add("c15-settings-value-prefers-previous", "C15.R1", f, splice(base.src, st.value, 'getattr(self.document.settings, "myst_footnote_sort", None) or ' + _seg(f, st.value)), "myst_footnote_sort")
+    # R1: ad-hoc env mapping (keyed by docname, but not one Sphinx merges from parallel workers)
+    st = find_stmt(f, lambda n: isinstance(n, ast.Assign) and "myst_slugs" in unparse(n.targets[0]) and "metadata" in unparse(n.targets[0]))
+    if st is not None:
+        add("c15-adhoc-env-mapping-keyed-by-docname", "C15.R1", f, splice(base.src, st.targets[0], "self.sphinx_env.myst_slugs[self.sphinx_env.docname]"), "myst_slugs")
+    # R1: class-level memo on the reference resolver (post-transform)
+    rr = corpus.mod("sphinx_ext.myst_refs")
+    f = rr.func("MystReferenceResolver.log_warning")
+    src2 = _prepend_stmt(f, "self._seen_targets.add(str(target))")
+    if "    def log_warning(" in src2:
+        add("c15-class-level-memo-on-resolver", "C15.R1", f, src2.replace("    def log_warning(", "    _seen_targets: set[str] = set()\n\n    def log_warning(", 1), "_seen_targets")
+    # R4: parsers handed out from a module-level store by a helper both front ends call
+    md = corpus.mod("parsers.mdit")
+    dp = corpus.mod("parsers.docutils_")
+    pf = dp.func("Parser.parse")
+    c = find_node(pf, lambda n: isinstance(n, ast.Call) and dotted(n.func) == "create_md_parser")
+    if c is not None:
+        helper = (
+            "\n\n_PARSERS: dict = {}\n\n\ndef get_md_parser(config, renderer):\n"
+            "    key = (renderer, config.commonmark_only, config.gfm_only, tuple(sorted(config.enable_extensions)))\n"
+            "    if key not in _PARSERS:\n        _PARSERS[key] = create_md_parser(config, renderer)\n"
+            "    _PARSERS[key].options['myst_config'] = config\n    return _PARSERS[key]\n"
+        )
+        new_dp = splice(dp.src, c.func, "get_md_parser").replace("from myst_parser.parsers.mdit import create_md_parser", "from myst_parser.parsers.mdit import create_md_parser, get_md_parser", 1)
+        out.append(Mutant("c15-parser-cache-behind-helper", "C15.R4", md.rel, md.src + helper, expect="Parser.parse", more={dp.rel: new_dp}))
     return out
